@@ -95,6 +95,8 @@ CmpOk(e) ==
     [] op = "max" -> LET o == OutOf(e.out, "never") IN
                      IF c > 0 THEN o = S!Ret(x.c, x.f) ELSE IF c < 0 THEN o = S!Ret(y.c, y.f)
                      ELSE o \in {S!Ret(x.c, x.f), S!Ret(y.c, y.f)}
+\* feature rkyv: archived values compare like the values they were archived from, and keep (coefficient, scale)
+AcmpOk(e) == CmpOk(e) /\ Num(e.ac) = Num(e.x) /\ e.af = e.x.f
 KernOk(e) == S!KernelOk(Num(e.x), Num(e.y), e.mode, OutOf(e.out, "panic"))
 WideOk(e, md) ==
   LET op == e.op  some == e.some = 1  q == IF some THEN Num(e.q) ELSE Z0  r == IF some /\ op \in {"i256_div_mod_floor", "i128_shifted_div_mod_floor"} THEN Num(e.r) ELSE Z0
@@ -127,6 +129,8 @@ FromFloatOk(e) ==
   LET fr == Mk(IF e.frac = <<>> THEN 0 ELSE 1, e.frac)
       r == IF e.w = 64 THEN F!FromFloat(e.sign, e.bexp, fr, 52, 2047, 1023) ELSE F!FromFloat(e.sign, e.bexp, fr, 23, 255, 127)
   IN IF r[1] = "ok" THEN e.out.k = "ok" /\ Num(e.out) = r[2] /\ e.out.f = r[3]
+     ELSE IF r[1] = "ok_or_overflow"
+          THEN (e.out.k = "ok" /\ Num(e.out) = r[2] /\ e.out.f = r[3]) \/ (e.out.k = "err" /\ e.out.e = "InternalOverflow")
      ELSE e.out.k = "err" /\ e.out.e = r[1]
 FromIntOk(e) ==
   LET v == Num(e.v) IN
@@ -182,6 +186,7 @@ Conforms(e) ==
     [] e.ev = "un" -> UnOk(e, md)
     [] e.ev = "obs" -> ObsOk(e)
     [] e.ev = "cmp" -> CmpOk(e)
+    [] e.ev = "acmp" -> AcmpOk(e)
     [] e.ev = "kern" -> KernOk(e)
     [] e.ev = "wide" -> WideOk(e, md)
     [] e.ev = "parse" -> ParseEvOk(e)
